@@ -636,3 +636,483 @@ Proof.
   exists c; split; [exact E|]. rewrite <- A.
   apply (both_refine _ _ _ _ chunks_abs chunks_inv chunks_next_ok chunks_next_back_ok). exact Iv.
 Qed.
+
+(* ------------------------------------------------------------------------------------ *)
+(** * RChunks / RChunksRev *)
+
+Definition rchunks_abs_v (n : Z) (s : view) : list view :=
+  map (fun i => mkv (voff s + Z.max 0 (vlen s - (i + 1) * n)) (Z.min n (vlen s - i * n)))
+      (ziota (chunks_count n (vlen s))).
+Definition rchunks_abs (c : chunks) : list view :=
+  match c_slice c with None => [] | Some s => rchunks_abs_v (c_size c) s end.
+
+Lemma rchunks_abs_v_empty n s : 1 <= n -> vlen s = 0 -> rchunks_abs_v n s = [].
+Proof. intros Hn E. unfold rchunks_abs_v. rewrite E, cnt_zero by exact Hn. reflexivity. Qed.
+
+Lemma rchunks_sine n s : 1 <= n -> 0 <= vlen s ->
+  rchunks_abs (mk_chunks (some_if_nonempty s) n) = rchunks_abs_v n s /\
+  chunks_inv (mk_chunks (some_if_nonempty s) n).
+Proof.
+  intros Hn Hs. unfold some_if_nonempty, rchunks_abs, chunks_inv. destruct (Z.eqb_spec (vlen s) 0) as [E|E];
+    cbn [c_slice c_size].
+  - split; [symmetry; now apply rchunks_abs_v_empty | auto].
+  - split; [reflexivity | split; lia].
+Qed.
+
+Lemma rchunks_abs_v_single n o l : 1 <= n -> 0 < l <= n -> rchunks_abs_v n (mkv o l) = [mkv (o + 0) (l - 0)].
+Proof.
+  intros Hn Hl. unfold rchunks_abs_v. cbn [voff vlen]. rewrite cnt_small by lia.
+  rewrite map_ziota_front by lia. rewrite map_ziota_nil by lia. f_equal. f_equal; lia.
+Qed.
+
+Lemma rchunks_next_ok c : chunks_inv c ->
+  match rchunks_next c with
+  | Stop => rchunks_abs c = []
+  | Yield x c' => rchunks_abs c = x :: rchunks_abs c' /\ chunks_inv c'
+  | Panic => False
+  end.
+Proof.
+  destruct c as [[[o l]|] n]; unfold rchunks_next, chunks_inv; cbn [c_slice c_size voff vlen];
+    [|reflexivity].
+  intros [Hn Hl]. unfold saturating_sub, split_at, slice_up_to, slice_from. cbn [voff vlen].
+  destruct (Z.ltb_spec l n) as [Hlt|Hge]; cbn [voff vlen]; zcase; try (exfalso; lia).
+  - destruct (rchunks_sine n (mkv o 0) Hn ltac:(cbn; lia)) as [Ea Ei]. rewrite Ea.
+    split; [|exact Ei]. unfold rchunks_abs. cbn [c_slice c_size].
+    rewrite rchunks_abs_v_single by lia. rewrite rchunks_abs_v_empty by (cbn; lia). reflexivity.
+  - destruct (rchunks_sine n (mkv o (l - n)) Hn ltac:(cbn; lia)) as [Ea Ei]. rewrite Ea.
+    split; [|exact Ei]. unfold rchunks_abs, rchunks_abs_v. cbn [c_slice c_size voff vlen].
+    pose proof (cnt_nonneg n (l - n) Hn ltac:(lia)) as Hc. rewrite cnt_sub in Hc by lia.
+    rewrite map_ziota_front by lia.
+    f_equal; [f_equal; lia|]. apply map_ziota_eq; [now rewrite cnt_sub | intros; f_equal; lia].
+Qed.
+
+(** the front split of rchunks: len % n, or n when that is 0 *)
+Lemma rsplit n l : 1 <= n -> 0 < l ->
+  l = (l - 1) / n * n + (if l mod n =? 0 then n else l mod n) /\
+  1 <= (if l mod n =? 0 then n else l mod n) <= n.
+Proof.
+  intros Hn Hl. pose proof (Z.div_mod l n ltac:(lia)) as E.
+  pose proof (Z.mod_pos_bound l n ltac:(lia)) as B.
+  destruct (Z.eqb_spec (l mod n) 0) as [R|R].
+  - assert (Q : (l - 1) / n = l / n - 1).
+    { symmetry. apply (Z.div_unique_pos (l - 1) n (l / n - 1) (n - 1)); [lia|]. rewrite R in E.
+      rewrite Z.mul_sub_distr_l. lia. }
+    rewrite Q. rewrite R in E. rewrite Z.mul_sub_distr_r, (Z.mul_comm (l / n)). lia.
+  - assert (Q : (l - 1) / n = l / n).
+    { symmetry. apply (Z.div_unique_pos (l - 1) n (l / n) (l mod n - 1)); lia. }
+    rewrite Q, (Z.mul_comm (l / n)). lia.
+Qed.
+
+Lemma rchunks_next_back_ok c : chunks_inv c ->
+  match rchunks_next_back c with
+  | Stop => rchunks_abs c = []
+  | Yield x c' => rchunks_abs c = rchunks_abs c' ++ [x] /\ chunks_inv c'
+  | Panic => False
+  end.
+Proof.
+  destruct c as [[[o l]|] n]; unfold rchunks_next_back, chunks_inv; cbn [c_slice c_size voff vlen];
+    [|reflexivity].
+  intros [Hn Hl]. unfold urem. destruct (Z.eqb_spec n 0); [lia|].
+  destruct (rsplit n l Hn Hl) as [El [Ha1 Ha2]].
+  destruct (last_chunk_bounds n l Hn Hl) as [Hq _].
+  set (q := (l - 1) / n) in *.
+  set (at_ := if l mod n =? 0 then n else l mod n) in *. clearbody at_ q.
+  unfold split_at, slice_up_to, slice_from. cbn [voff vlen]. zcase; try (exfalso; lia).
+  destruct (rchunks_sine n (mkv (o + at_) (l - at_)) Hn ltac:(cbn; lia)) as [Ea Ei]. rewrite Ea.
+  split; [|exact Ei]. unfold rchunks_abs, rchunks_abs_v. cbn [c_slice c_size voff vlen].
+  assert (C1 : chunks_count n l = q + 1).
+  { replace l with ((q + 1) * n - (n - at_)) by lia. unfold chunks_count.
+    replace ((q + 1) * n - (n - at_) + n - 1) with ((at_ - 1) + (q + 1) * n) by lia.
+    rewrite Z.div_add by lia. rewrite Z.div_small by lia. lia. }
+  assert (C2 : chunks_count n (l - at_) = q).
+  { replace (l - at_) with (q * n) by lia. now apply cnt_mul. }
+  rewrite C1. rewrite map_ziota_back by lia. replace (q + 1 - 1) with q by lia.
+  f_equal.
+  - apply map_ziota_eq; [now rewrite C2|]. intros i Hi.
+    pose proof (mul_step n i q ltac:(lia) ltac:(lia)). f_equal; lia.
+  - f_equal. f_equal; lia.
+Qed.
+
+Lemma rchunks_abs_new len n : 1 <= n -> 0 <= len ->
+  exists c, rchunks_new len n = Some c /\ rchunks_abs c = rchunks_spec n len /\ chunks_inv c.
+Proof.
+  intros Hn Hl. unfold rchunks_new, chunks_new. destruct (Z.eqb_spec n 0); [lia|].
+  eexists; split; [reflexivity|].
+  destruct (rchunks_sine n (mkv 0 len) Hn Hl) as [Ea Ei]. split; [|exact Ei]. rewrite Ea.
+  unfold rchunks_abs_v, rchunks_spec. cbn [voff vlen].
+  apply map_ziota_eq; [reflexivity | intros; f_equal; lia].
+Qed.
+
+Theorem rchunks_refines len n h : 1 <= n -> 0 <= len ->
+  exists c, rchunks_new len n = Some c /\
+    run_m rchunks_next rchunks_next_back h (fwd c) = Some (deque_run h (rchunks_spec n len)) /\
+    run_m rchunks_next rchunks_next_back h (it_rev (fwd c)) = Some (deque_run h (rev (rchunks_spec n len))).
+Proof.
+  intros Hn Hl. destruct (rchunks_abs_new len n Hn Hl) as [c [E [A Iv]]].
+  exists c; split; [exact E|]. rewrite <- A.
+  apply (both_refine _ _ _ _ rchunks_abs chunks_inv rchunks_next_ok rchunks_next_back_ok). exact Iv.
+Qed.
+
+(* ------------------------------------------------------------------------------------ *)
+(** * ChunksExact / RChunksExact (+ Rev) *)
+
+Definition exact_inv (e : exact) : Prop :=
+  1 <= e_size e /\ 0 <= vlen (e_slice e) /\ vlen (e_slice e) mod e_size e = 0.
+(** in the order chunks_exact yields them ... *)
+Definition exact_abs (e : exact) : list view :=
+  map (fun i => mkv (voff (e_slice e) + i * e_size e) (e_size e)) (ziota (vlen (e_slice e) / e_size e)).
+(** ... and in the order rchunks_exact yields them *)
+Definition rexact_abs (e : exact) : list view :=
+  map (fun i => mkv (voff (e_slice e) + vlen (e_slice e) - (i + 1) * e_size e) (e_size e))
+      (ziota (vlen (e_slice e) / e_size e)).
+
+Lemma exact_take_front_ok e : exact_inv e ->
+  match exact_take_front e with
+  | Stop => exact_abs e = [] /\ rexact_abs e = []
+  | Yield x e' => exact_abs e = x :: exact_abs e' /\ rexact_abs e = rexact_abs e' ++ [x] /\ exact_inv e'
+  | Panic => False
+  end.
+Proof.
+  destruct e as [[o l] r n]. unfold exact_take_front, exact_inv, exact_abs, rexact_abs.
+  cbn [e_slice e_rem e_size voff vlen]. intros [Hn [Hl Hm]].
+  destruct (Z.eqb_spec l 0) as [Z0|NZ].
+  - subst l. rewrite Z.div_0_l by lia. split; reflexivity.
+  - destruct (exact_ge n l Hn Hl Hm NZ) as [Hge Hq].
+    pose proof (exact_len n l Hn Hm) as El.
+    unfold split_at, slice_up_to, slice_from. cbn [voff vlen]. zcase; try (exfalso; lia).
+    cbn [e_slice e_rem e_size voff vlen].
+    rewrite (div_exact_sub n l Hn), (mod_exact_sub n l Hn).
+    split; [|split; [|repeat split; lia]].
+    + rewrite map_ziota_front by lia. f_equal; [f_equal; lia|].
+      apply map_ziota_eq; [reflexivity | intros; f_equal; lia].
+    + rewrite map_ziota_back by lia. f_equal.
+      * apply map_ziota_eq; [reflexivity | intros; f_equal; lia].
+      * f_equal. f_equal. lia.
+Qed.
+
+Lemma exact_take_back_ok e : exact_inv e ->
+  match exact_take_back e with
+  | Stop => exact_abs e = [] /\ rexact_abs e = []
+  | Yield x e' => exact_abs e = exact_abs e' ++ [x] /\ rexact_abs e = x :: rexact_abs e' /\ exact_inv e'
+  | Panic => False
+  end.
+Proof.
+  destruct e as [[o l] r n]. unfold exact_take_back, exact_inv, exact_abs, rexact_abs.
+  cbn [e_slice e_rem e_size voff vlen]. intros [Hn [Hl Hm]].
+  destruct (Z.eqb_spec l 0) as [Z0|NZ].
+  - subst l. rewrite Z.div_0_l by lia. split; reflexivity.
+  - destruct (exact_ge n l Hn Hl Hm NZ) as [Hge Hq].
+    pose proof (exact_len n l Hn Hm) as El.
+    unfold usub, split_at, slice_up_to, slice_from. cbn [voff vlen]. zcase; try (exfalso; lia).
+    cbn [e_slice e_rem e_size voff vlen]. zcase; try (exfalso; lia).
+    cbn [e_slice e_rem e_size voff vlen].
+    rewrite (div_exact_sub n l Hn), (mod_exact_sub n l Hn).
+    split; [|split; [|repeat split; lia]].
+    + rewrite map_ziota_back by lia. f_equal. f_equal. f_equal; lia.
+    + rewrite map_ziota_front by lia. f_equal; [f_equal; lia|].
+      apply map_ziota_eq; [reflexivity | intros; f_equal; lia].
+Qed.
+
+Lemma chunks_exact_next_ok e : exact_inv e ->
+  match chunks_exact_next e with
+  | Stop => exact_abs e = [] | Yield x e' => exact_abs e = x :: exact_abs e' /\ exact_inv e' | Panic => False end.
+Proof. intro H. pose proof (exact_take_front_ok e H) as P. unfold chunks_exact_next. destruct (exact_take_front e); tauto. Qed.
+Lemma chunks_exact_next_back_ok e : exact_inv e ->
+  match chunks_exact_next_back e with
+  | Stop => exact_abs e = [] | Yield x e' => exact_abs e = exact_abs e' ++ [x] /\ exact_inv e' | Panic => False end.
+Proof. intro H. pose proof (exact_take_back_ok e H) as P. unfold chunks_exact_next_back. destruct (exact_take_back e); tauto. Qed.
+Lemma rchunks_exact_next_ok e : exact_inv e ->
+  match rchunks_exact_next e with
+  | Stop => rexact_abs e = [] | Yield x e' => rexact_abs e = x :: rexact_abs e' /\ exact_inv e' | Panic => False end.
+Proof. intro H. pose proof (exact_take_back_ok e H) as P. unfold rchunks_exact_next. destruct (exact_take_back e); tauto. Qed.
+Lemma rchunks_exact_next_back_ok e : exact_inv e ->
+  match rchunks_exact_next_back e with
+  | Stop => rexact_abs e = [] | Yield x e' => rexact_abs e = rexact_abs e' ++ [x] /\ exact_inv e' | Panic => False end.
+Proof. intro H. pose proof (exact_take_front_ok e H) as P. unfold rchunks_exact_next_back. destruct (exact_take_front e); tauto. Qed.
+
+Lemma chunks_exact_abs_new len n : 1 <= n -> 0 <= len ->
+  exists e, chunks_exact_new len n = Some e /\ exact_abs e = chunks_exact_spec n len /\
+            exact_inv e /\ exact_remainder e = chunks_exact_rem n len.
+Proof.
+  intros Hn Hl. unfold chunks_exact_new, urem, usub. destruct (Z.eqb_spec n 0); [lia|].
+  pose proof (Z.div_mod len n ltac:(lia)) as E. pose proof (Z.mod_pos_bound len n ltac:(lia)) as B.
+  assert (0 <= len / n) by (apply Z.div_pos; lia).
+  assert (Hr : len mod n <= len).
+  { rewrite E at 2. assert (0 <= n * (len / n)) by (apply Z.mul_nonneg_nonneg; lia). lia. }
+  zcase; try (exfalso; lia).
+  unfold split_at, slice_up_to, slice_from. cbn [voff vlen]. zcase; try (exfalso; lia).
+  eexists; split; [reflexivity|].
+  assert (Ed : len - len mod n = len / n * n) by (rewrite (Z.mul_comm (len / n)); lia).
+  unfold exact_abs, exact_inv, exact_remainder, chunks_exact_spec, chunks_exact_rem.
+  cbn [e_slice e_rem e_size voff vlen]. rewrite Ed. rewrite Z.div_mul by lia. rewrite Z.mod_mul by lia.
+  repeat split; try lia;
+    try (apply map_ziota_eq; [reflexivity | intros; f_equal; lia]);
+    try (f_equal; lia).
+Qed.
+
+Lemma rchunks_exact_abs_new len n : 1 <= n -> 0 <= len ->
+  exists e, rchunks_exact_new len n = Some e /\ rexact_abs e = rchunks_exact_spec n len /\
+            exact_inv e /\ exact_remainder e = rchunks_exact_rem n len.
+Proof.
+  intros Hn Hl. unfold rchunks_exact_new, urem. destruct (Z.eqb_spec n 0); [lia|].
+  pose proof (Z.div_mod len n ltac:(lia)) as E. pose proof (Z.mod_pos_bound len n ltac:(lia)) as B.
+  assert (0 <= len / n) by (apply Z.div_pos; lia).
+  assert (Hr : len mod n <= len).
+  { rewrite E at 2. assert (0 <= n * (len / n)) by (apply Z.mul_nonneg_nonneg; lia). lia. }
+  unfold split_at, slice_up_to, slice_from. cbn [voff vlen]. zcase; try (exfalso; lia).
+  eexists; split; [reflexivity|].
+  assert (Ed : len - len mod n = len / n * n) by (rewrite (Z.mul_comm (len / n)); lia).
+  unfold rexact_abs, exact_inv, exact_remainder, rchunks_exact_spec, rchunks_exact_rem.
+  cbn [e_slice e_rem e_size voff vlen]. rewrite Ed. rewrite Z.div_mul by lia. rewrite Z.mod_mul by lia.
+  repeat split; try lia;
+    try (apply map_ziota_eq; [reflexivity | intros; f_equal; lia]);
+    try (f_equal; lia).
+Qed.
+
+Lemma exact_front_pres e x e' : exact_take_front e = Yield x e' -> e_rem e' = e_rem e.
+Proof.
+  unfold exact_take_front. destruct (vlen (e_slice e) =? 0); [discriminate|].
+  destruct (split_at (e_slice e) (e_size e)). intro H; inversion H. reflexivity.
+Qed.
+Lemma exact_back_pres e x e' : exact_take_back e = Yield x e' -> e_rem e' = e_rem e.
+Proof.
+  unfold exact_take_back. destruct (vlen (e_slice e) =? 0); [discriminate|].
+  destruct (usub (vlen (e_slice e)) (e_size e)); [|discriminate].
+  destruct (split_at (e_slice e) z). intro H; inversion H. reflexivity.
+Qed.
+
+Theorem chunks_exact_refines len n h : 1 <= n -> 0 <= len ->
+  exists e, chunks_exact_new len n = Some e /\
+    run_m chunks_exact_next chunks_exact_next_back h (fwd e) = Some (deque_run h (chunks_exact_spec n len)) /\
+    run_m chunks_exact_next chunks_exact_next_back h (it_rev (fwd e)) = Some (deque_run h (rev (chunks_exact_spec n len))).
+Proof.
+  intros Hn Hl. destruct (chunks_exact_abs_new len n Hn Hl) as [e [E [A [Iv _]]]].
+  exists e; split; [exact E|]. rewrite <- A.
+  apply (both_refine _ _ _ _ exact_abs exact_inv chunks_exact_next_ok chunks_exact_next_back_ok). exact Iv.
+Qed.
+Theorem rchunks_exact_refines len n h : 1 <= n -> 0 <= len ->
+  exists e, rchunks_exact_new len n = Some e /\
+    run_m rchunks_exact_next rchunks_exact_next_back h (fwd e) = Some (deque_run h (rchunks_exact_spec n len)) /\
+    run_m rchunks_exact_next rchunks_exact_next_back h (it_rev (fwd e)) = Some (deque_run h (rev (rchunks_exact_spec n len))).
+Proof.
+  intros Hn Hl. destruct (rchunks_exact_abs_new len n Hn Hl) as [e [E [A [Iv _]]]].
+  exists e; split; [exact E|]. rewrite <- A.
+  apply (both_refine _ _ _ _ rexact_abs exact_inv rchunks_exact_next_ok rchunks_exact_next_back_ok). exact Iv.
+Qed.
+
+(** remainder() is the same after every history, for the forward and the reversed type *)
+Theorem chunks_exact_remainder len n h rv : 1 <= n -> 0 <= len ->
+  exists e, chunks_exact_new len n = Some e /\
+    forall it', final_m chunks_exact_next chunks_exact_next_back h (if rv : bool then it_rev (fwd e) else fwd e) = Some it' ->
+                exact_remainder (core it') = chunks_exact_rem n len.
+Proof.
+  intros Hn Hl. destruct (chunks_exact_abs_new len n Hn Hl) as [e [E [_ [_ R]]]].
+  exists e; split; [exact E|]. intros it' F. rewrite <- R. unfold exact_remainder.
+  rewrite (final_m_preserves _ _ chunks_exact_next chunks_exact_next_back _ e_rem exact_front_pres exact_back_pres h _ it' F).
+  now destruct rv.
+Qed.
+Theorem rchunks_exact_remainder len n h rv : 1 <= n -> 0 <= len ->
+  exists e, rchunks_exact_new len n = Some e /\
+    forall it', final_m rchunks_exact_next rchunks_exact_next_back h (if rv : bool then it_rev (fwd e) else fwd e) = Some it' ->
+                exact_remainder (core it') = rchunks_exact_rem n len.
+Proof.
+  intros Hn Hl. destruct (rchunks_exact_abs_new len n Hn Hl) as [e [E [_ [_ R]]]].
+  exists e; split; [exact E|]. intros it' F. rewrite <- R. unfold exact_remainder.
+  rewrite (final_m_preserves _ _ rchunks_exact_next rchunks_exact_next_back _ e_rem exact_back_pres exact_front_pres h _ it' F).
+  now destruct rv.
+Qed.
+
+(* ------------------------------------------------------------------------------------ *)
+(** * as_chunks / as_rchunks / ArrayChunks (+ Rev) *)
+
+Definition ac_abs (a : array_chunks) : list view :=
+  map (fun i => mkv (a_off (ac_arrays a) + i * ac_n a) (ac_n a)) (ziota (a_cnt (ac_arrays a))).
+Definition ac_inv (_ : array_chunks) : Prop := True.
+
+Lemma array_chunks_next_ok a : ac_inv a ->
+  match array_chunks_next a with
+  | Stop => ac_abs a = []
+  | Yield x a' => ac_abs a = x :: ac_abs a' /\ ac_inv a'
+  | Panic => False
+  end.
+Proof.
+  intros _. destruct a as [[o k] r n]. unfold array_chunks_next, ac_abs, ac_inv.
+  cbn [ac_arrays ac_rem ac_n a_off a_cnt]. zcase.
+  - apply map_ziota_nil; lia.
+  - split; [|exact Logic.I]. rewrite map_ziota_front by lia. cbn [ac_arrays ac_rem ac_n a_off a_cnt].
+    f_equal; [f_equal; lia|]. apply map_ziota_eq; [reflexivity | intros; f_equal; lia].
+Qed.
+Lemma array_chunks_next_back_ok a : ac_inv a ->
+  match array_chunks_next_back a with
+  | Stop => ac_abs a = []
+  | Yield x a' => ac_abs a = ac_abs a' ++ [x] /\ ac_inv a'
+  | Panic => False
+  end.
+Proof.
+  intros _. destruct a as [[o k] r n]. unfold array_chunks_next_back, ac_abs, ac_inv.
+  cbn [ac_arrays ac_rem ac_n a_off a_cnt]. zcase.
+  - apply map_ziota_nil; lia.
+  - split; [|exact Logic.I]. rewrite map_ziota_back by lia. cbn [ac_arrays ac_rem ac_n a_off a_cnt].
+    reflexivity.
+Qed.
+
+(** as_chunks = (the exact chunks as arrays, the remainder) *)
+Theorem as_chunks_spec len n : 1 <= n -> 0 <= len ->
+  as_chunks_m len n = Some (mk_arrays 0 (len / n), chunks_exact_rem n len).
+Proof.
+  intros Hn Hl. unfold as_chunks_m, udiv. destruct (Z.eqb_spec n 0); [lia|].
+  pose proof (Z.div_mod len n ltac:(lia)) as E. pose proof (Z.mod_pos_bound len n ltac:(lia)) as B.
+  assert (0 <= len / n) by (apply Z.div_pos; lia).
+  assert (Hr : len / n * n <= len).
+  { rewrite E at 2. rewrite (Z.mul_comm n). lia. }
+  unfold split_at, slice_up_to, slice_from, chunks_exact_rem. cbn [voff vlen]. zcase; try (exfalso; lia).
+  cbn [voff]. f_equal. f_equal. f_equal; lia.
+Qed.
+Theorem as_rchunks_spec len n : 1 <= n -> 0 <= len ->
+  as_rchunks_m len n = Some (rchunks_exact_rem n len, mk_arrays (len mod n) (len / n)).
+Proof.
+  intros Hn Hl. unfold as_rchunks_m, udiv, urem. destruct (Z.eqb_spec n 0); [lia|].
+  pose proof (Z.div_mod len n ltac:(lia)) as E. pose proof (Z.mod_pos_bound len n ltac:(lia)) as B.
+  assert (0 <= len / n) by (apply Z.div_pos; lia).
+  assert (Hr : len mod n <= len).
+  { rewrite E at 2. assert (0 <= n * (len / n)) by (apply Z.mul_nonneg_nonneg; lia). lia. }
+  unfold split_at, slice_up_to, slice_from, rchunks_exact_rem. cbn [voff vlen]. zcase; try (exfalso; lia).
+  cbn [voff]. reflexivity.
+Qed.
+
+Lemma array_chunks_abs_new len n : 1 <= n -> 0 <= len ->
+  exists a, array_chunks_new len n = Some a /\ ac_abs a = array_chunks_spec n len /\
+            array_chunks_remainder a = array_chunks_rem n len.
+Proof.
+  intros Hn Hl. unfold array_chunks_new. rewrite as_chunks_spec by assumption.
+  eexists; split; [reflexivity|]. split; [|reflexivity].
+  unfold ac_abs, array_chunks_spec, chunks_exact_spec. cbn [ac_arrays ac_rem ac_n a_off a_cnt].
+  apply map_ziota_eq; [reflexivity | intros; f_equal; lia].
+Qed.
+
+Theorem array_chunks_refines len n h : 1 <= n -> 0 <= len ->
+  exists a, array_chunks_new len n = Some a /\
+    run_m array_chunks_next array_chunks_next_back h (fwd a) = Some (deque_run h (array_chunks_spec n len)) /\
+    run_m array_chunks_next array_chunks_next_back h (it_rev (fwd a)) = Some (deque_run h (rev (array_chunks_spec n len))).
+Proof.
+  intros Hn Hl. destruct (array_chunks_abs_new len n Hn Hl) as [a [E [A _]]].
+  exists a; split; [exact E|]. rewrite <- A.
+  apply (both_refine _ _ _ _ ac_abs ac_inv array_chunks_next_ok array_chunks_next_back_ok). exact Logic.I.
+Qed.
+
+Lemma ac_front_pres a x a' : array_chunks_next a = Yield x a' -> ac_rem a' = ac_rem a.
+Proof. unfold array_chunks_next. destruct (a_cnt (ac_arrays a) <=? 0); [discriminate|]. intro H; inversion H. reflexivity. Qed.
+Lemma ac_back_pres a x a' : array_chunks_next_back a = Yield x a' -> ac_rem a' = ac_rem a.
+Proof. unfold array_chunks_next_back. destruct (a_cnt (ac_arrays a) <=? 0); [discriminate|]. intro H; inversion H. reflexivity. Qed.
+
+Theorem array_chunks_remainder_const len n h : 1 <= n -> 0 <= len ->
+  exists a, array_chunks_new len n = Some a /\
+    forall it', final_m array_chunks_next array_chunks_next_back h (fwd a) = Some it' ->
+                array_chunks_remainder (core it') = array_chunks_rem n len.
+Proof.
+  intros Hn Hl. destruct (array_chunks_abs_new len n Hn Hl) as [a [E [_ R]]].
+  exists a; split; [exact E|]. intros it' F. rewrite <- R. unfold array_chunks_remainder.
+  now rewrite (final_m_preserves _ _ array_chunks_next array_chunks_next_back _ ac_rem ac_front_pres ac_back_pres h _ it' F).
+Qed.
+
+(* ------------------------------------------------------------------------------------ *)
+(** * size 0: every constructor panics (like std's) *)
+Theorem size_zero_panics len :
+  windows_new len 0 = None /\ chunks_new len 0 = None /\ rchunks_new len 0 = None /\
+  chunks_exact_new len 0 = None /\ rchunks_exact_new len 0 = None /\ array_chunks_new len 0 = None /\
+  as_chunks_m len 0 = None /\ as_rchunks_m len 0 = None.
+Proof. repeat split. Qed.
+
+(* ------------------------------------------------------------------------------------ *)
+(** * the specs are what std documents, in list vocabulary *)
+
+(** every yielded view lies inside the slice *)
+Definition inside (len : Z) (v : view) : Prop := 0 <= voff v /\ 0 <= vlen v /\ voff v + vlen v <= len.
+
+Lemma Forall_map_ziota {B} (P : B -> Prop) (f : Z -> B) k :
+  (forall i, 0 <= i < k -> P (f i)) -> Forall P (map f (ziota k)).
+Proof.
+  intro H. apply Forall_forall. intros x Hx. apply in_map_iff in Hx as [i [<- Hi]].
+  apply H. now apply In_ziota.
+Qed.
+
+(* ------------------------------------------------------------------------------------ *)
+(** * rev in mid-stream: after ANY history, reversing swaps the two ends *)
+
+Lemma rev_swaps_after {C I} (nb bb : C -> step I C) (cabs : C -> list I) (cinv : C -> Prop)
+  (nb_ok : forall c, cinv c ->
+     match nb c with Stop => cabs c = [] | Yield x c' => cabs c = x :: cabs c' /\ cinv c' | Panic => False end)
+  (bb_ok : forall c, cinv c ->
+     match bb c with Stop => cabs c = [] | Yield x c' => cabs c = cabs c' ++ [x] /\ cinv c' | Panic => False end)
+  g h c it' :
+  cinv c -> final_m nb bb g (fwd c) = Some it' ->
+  run_m nb bb h (it_rev it') = run_m nb bb (map swap_end h) it'.
+Proof.
+  intros Hc F.
+  destruct (final_m_refines _ _ nb bb cabs cinv nb_ok bb_ok g (fwd c) Hc) as [it2 [F2 [I2 _]]].
+  rewrite F in F2. inversion F2; subst it2.
+  apply (rev_swaps_ends _ _ nb bb cabs cinv nb_ok bb_ok). exact I2.
+Qed.
+
+Theorem iter_rev_swaps len g h it' :
+  final_m iter_next iter_next_back g (fwd (iter_new len)) = Some it' ->
+  run_m iter_next iter_next_back h (it_rev it') = run_m iter_next iter_next_back (map swap_end h) it'.
+Proof. apply (rev_swaps_after _ _ iter_abs iter_inv iter_next_ok iter_next_back_ok). exact Logic.I. Qed.
+
+Theorem copied_rev_swaps {A} (l : list A) g h it' :
+  final_m copied_next copied_next_back g (fwd (copied_new l)) = Some it' ->
+  run_m copied_next copied_next_back h (it_rev it') = run_m copied_next copied_next_back (map swap_end h) it'.
+Proof.
+  apply (rev_swaps_after _ _ (copied_abs A) (copied_inv A l) (copied_next_ok A l) (copied_next_back_ok A l)).
+  apply copied_inv_new.
+Qed.
+
+Theorem windows_rev_swaps len n g h w it' : 1 <= n -> windows_new len n = Some w ->
+  final_m windows_next windows_next_back g (fwd w) = Some it' ->
+  run_m windows_next windows_next_back h (it_rev it') = run_m windows_next windows_next_back (map swap_end h) it'.
+Proof.
+  intros Hn E. apply (rev_swaps_after _ _ windows_abs windows_inv windows_next_ok windows_next_back_ok).
+  unfold windows_new in E. destruct (n =? 0); inversion E. exact Hn.
+Qed.
+
+Theorem chunks_rev_swaps len n g h c it' : 1 <= n -> 0 <= len -> chunks_new len n = Some c ->
+  final_m chunks_next chunks_next_back g (fwd c) = Some it' ->
+  run_m chunks_next chunks_next_back h (it_rev it') = run_m chunks_next chunks_next_back (map swap_end h) it'.
+Proof.
+  intros Hn Hl E. apply (rev_swaps_after _ _ chunks_abs chunks_inv chunks_next_ok chunks_next_back_ok).
+  destruct (chunks_abs_new len n Hn Hl) as [c' [E' [_ Iv]]]. rewrite E in E'. now inversion E'.
+Qed.
+Theorem rchunks_rev_swaps len n g h c it' : 1 <= n -> 0 <= len -> rchunks_new len n = Some c ->
+  final_m rchunks_next rchunks_next_back g (fwd c) = Some it' ->
+  run_m rchunks_next rchunks_next_back h (it_rev it') = run_m rchunks_next rchunks_next_back (map swap_end h) it'.
+Proof.
+  intros Hn Hl E. apply (rev_swaps_after _ _ rchunks_abs chunks_inv rchunks_next_ok rchunks_next_back_ok).
+  destruct (rchunks_abs_new len n Hn Hl) as [c' [E' [_ Iv]]]. rewrite E in E'. now inversion E'.
+Qed.
+Theorem chunks_exact_rev_swaps len n g h e it' : 1 <= n -> 0 <= len -> chunks_exact_new len n = Some e ->
+  final_m chunks_exact_next chunks_exact_next_back g (fwd e) = Some it' ->
+  run_m chunks_exact_next chunks_exact_next_back h (it_rev it') =
+  run_m chunks_exact_next chunks_exact_next_back (map swap_end h) it'.
+Proof.
+  intros Hn Hl E. apply (rev_swaps_after _ _ exact_abs exact_inv chunks_exact_next_ok chunks_exact_next_back_ok).
+  destruct (chunks_exact_abs_new len n Hn Hl) as [c' [E' [_ [Iv _]]]]. rewrite E in E'. now inversion E'.
+Qed.
+Theorem rchunks_exact_rev_swaps len n g h e it' : 1 <= n -> 0 <= len -> rchunks_exact_new len n = Some e ->
+  final_m rchunks_exact_next rchunks_exact_next_back g (fwd e) = Some it' ->
+  run_m rchunks_exact_next rchunks_exact_next_back h (it_rev it') =
+  run_m rchunks_exact_next rchunks_exact_next_back (map swap_end h) it'.
+Proof.
+  intros Hn Hl E. apply (rev_swaps_after _ _ rexact_abs exact_inv rchunks_exact_next_ok rchunks_exact_next_back_ok).
+  destruct (rchunks_exact_abs_new len n Hn Hl) as [c' [E' [_ [Iv _]]]]. rewrite E in E'. now inversion E'.
+Qed.
+Theorem array_chunks_rev_swaps g h a it' :
+  final_m array_chunks_next array_chunks_next_back g (fwd a) = Some it' ->
+  run_m array_chunks_next array_chunks_next_back h (it_rev it') =
+  run_m array_chunks_next array_chunks_next_back (map swap_end h) it'.
+Proof. apply (rev_swaps_after _ _ ac_abs ac_inv array_chunks_next_ok array_chunks_next_back_ok). exact Logic.I. Qed.
+
+(** copy(): a value copy — same future, and (the model being a pure function of the
+    value) stepping one of the two cannot affect the other *)
+Theorem copy_same_future {C I} (nb bb : C -> step I C) h it :
+  run_m nb bb h (it_copy it) = run_m nb bb h it /\ final_m nb bb h (it_copy it) = final_m nb bb h it.
+Proof. now rewrite it_copy_id. Qed.
